@@ -31,7 +31,12 @@ import (
 	"github.com/nuts-foundation/nuts-node/storage"
 	"net/http"
 	"net/url"
+	"sync"
 )
+
+// dpopJtiMutex makes sure concurrent validations (on this node) of the same DPoP proof can't both find its jti unused:
+// looking up the jti and marking it as used must be a single step.
+var dpopJtiMutex sync.Mutex
 
 func (r Wrapper) CreateDPoPProof(ctx context.Context, request CreateDPoPProofRequestObject) (CreateDPoPProofResponseObject, error) {
 	// check method and url
@@ -88,6 +93,8 @@ func (r Wrapper) ValidateDPoPProof(_ context.Context, request ValidateDPoPProofR
 	}
 	// check if the jti is already used, if not add it to the store for the duration of the access token lifetime
 	var target struct{}
+	dpopJtiMutex.Lock()
+	defer dpopJtiMutex.Unlock()
 	if err := r.useNonceOnceStore().Get(dpopToken.Token.JwtID(), &target); err != nil {
 		if !errors.Is(err, storage.ErrNotFound) {
 			log.Logger().WithError(err).Error("ValidateDPoPProof: failed to retrieve jti usage state")
